@@ -9,25 +9,42 @@
    answers HitQuota of the period, `over` the answers OverQuota:
      ExactlyQuota   granted = min(requests of the period, quota); hits = 1 iff the quota was
                     reached (quota >= 1); every request beyond is OverQuota
-     ErrorNoGrant   an error never carries a grant (action property)                        *)
+     ErrorNoGrant   an error never carries a grant (action property)
+   Align(): the wall clock is the store's clock plus a constant `phase` (ms, chosen from Phases:
+   where in an aligned period the history starts), so a Take at pnow reads the local second
+   (pnow + phase) div 1000.  Checked in addition:
+     AlignedEnd     a counter of an Align() limiter ends with its aligned period (less than one
+                    second - the ttl's granularity - after the boundary), whenever it was opened
+     AlignedQuota   from one second after an aligned boundary up to the next boundary a key is
+                    granted at most `quota` requests (one counter covers that whole stretch)   *)
 EXTENDS PeriodLimit, Sequences, TLC, Json
 
 CONSTANTS
   KeySet,    \* keys
   PQ,        \* set of <<period, quota>>
   Aligns,    \* subset of BOOLEAN
+  Phases,    \* wall clock minus store clock, ms (only varied for Align() limiters)
   MaxOps,
   Emit,
   ErrEffects \* TRUE: a failed Take may still have been counted (lost reply)
 
-VARIABLES granted, hits, over, hist, ops
-mvars == <<period, quota, align, pnow, pup, cnt, exp, granted, hits, over, hist, ops>>
+VARIABLES granted, hits, over, hist, ops,
+  phase,     \* wall clock = pnow + phase
+  agr        \* key |-> grants since one second after the last aligned boundary (Align() only)
+mvars == <<period, quota, align, pnow, pup, cnt, exp, granted, hits, over, hist, ops, phase, agr>>
 
 PQA == {<<3, 2>>, <<2, 1>>, <<1, 3>>}
 PQB == {<<3, 2>>, <<2, 1>>, <<1, 3>>, <<2, 0>>, <<4, 4>>}
 
+Wall == pnow + phase
+WallSec == Wall \div 1000
+\* position inside the aligned period, ms
+InPeriod(w) == w % (period * 1000)
+
 MInit ==
   /\ \E p \in PQ : \E a \in Aligns : PInit(KeySet, p[1], p[2], a)
+  /\ phase \in (IF align THEN Phases ELSE {0})
+  /\ agr = [k \in KeySet |-> 0]
   /\ granted = [k \in KeySet |-> 0] /\ hits = [k \in KeySet |-> 0] /\ over = [k \in KeySet |-> 0]
   /\ hist = <<>> /\ ops = 0
 
@@ -37,18 +54,24 @@ Op(op, k, v) == [op |-> op, k |-> k, v |-> v]
 
 MTake(k) ==
   /\ Log(Op("take", k, 0))
+  /\ UNCHANGED phase
   /\ IF pup = "up"
        THEN \E code \in {Allowed, HitQuota, OverQuota} :
-              /\ TakeOk(k, code)
+              /\ TakeOk(k, code, {WallSec})
+              /\ agr' = [agr EXCEPT ![k] = IF align /\ code \in {Allowed, HitQuota} /\ InPeriod(Wall) >= 1000
+                                           THEN @ + 1 ELSE @]
               /\ granted' = [granted EXCEPT ![k] = IF code \in {Allowed, HitQuota} THEN @ + 1 ELSE @]
               /\ hits' = [hits EXCEPT ![k] = IF code = HitQuota THEN @ + 1 ELSE @]
               /\ over' = [over EXCEPT ![k] = IF code = OverQuota THEN @ + 1 ELSE @]
-       ELSE /\ TakeErr(k, Unknown)
+       ELSE /\ TakeErr(k, Unknown, {WallSec})
             /\ ErrEffects \/ UNCHANGED <<cnt, exp>>
-            /\ UNCHANGED <<granted, hits, over>>
+            /\ UNCHANGED <<granted, hits, over, agr>>
 
 Rems == {exp[k] - pnow : k \in {x \in KeySet : cnt[x] > 0}}
-AdvChoices == {d \in {1000, period * 1000} \cup UNION {{r - 1, r, r + 1} : r \in Rems} : d >= 1}
+\* (Align(): also to the aligned boundary itself and to one second after it)
+ToBoundary == period * 1000 - InPeriod(Wall)
+AdvChoices == {d \in {1000, period * 1000} \cup UNION {{r - 1, r, r + 1} : r \in Rems}
+                     \cup (IF align THEN {ToBoundary, ToBoundary + 1000} ELSE {}) : d >= 1}
 
 MAdvance(d) ==
   /\ PAdvance(d)
@@ -56,11 +79,15 @@ MAdvance(d) ==
   /\ granted' = [k \in KeySet |-> IF cnt'[k] = 0 THEN 0 ELSE granted[k]]
   /\ hits' = [k \in KeySet |-> IF cnt'[k] = 0 THEN 0 ELSE hits[k]]
   /\ over' = [k \in KeySet |-> IF cnt'[k] = 0 THEN 0 ELSE over[k]]
+  /\ UNCHANGED phase
+  \* a new aligned period began on the way: its grants are counted from its second second on
+  /\ agr' = IF (Wall + d) \div (period * 1000) # Wall \div (period * 1000)
+              THEN [k \in KeySet |-> 0] ELSE agr
 
 MFault ==
   /\ PFault(IF pup = "up" THEN "down" ELSE "up")
   /\ Log(Op("fault", 0, IF pup = "up" THEN 1 ELSE 0))
-  /\ UNCHANGED <<granted, hits, over>>
+  /\ UNCHANGED <<granted, hits, over, phase, agr>>
 
 MNext ==
   /\ ops < MaxOps
@@ -82,9 +109,15 @@ ExactlyQuota ==
                       /\ over[k] = cnt[k] - granted[k]
                       /\ hits[k] = (IF quota >= 1 /\ cnt[k] >= quota THEN 1 ELSE 0)
 
+\* Align(): the counter ends with the aligned period of the wall clock, at the ttl's granularity
+AlignedEnd == align => \A k \in KeySet : cnt[k] > 0 => InPeriod(exp[k] + phase) < 1000
+\* ... hence one quota per aligned period, its first second (the old counter's tail) apart
+AlignedQuota == align => \A k \in KeySet : agr[k] <= quota
+
 \* the clock-relative state (generation: one history per (state, last operation))
 LastOp == IF Len(hist) = 0 THEN <<>> ELSE <<hist[Len(hist)]>>
-View == <<period, quota, align, pup, cnt, [k \in KeySet |-> IF cnt[k] > 0 THEN exp[k] - pnow ELSE 0], LastOp>>
+View == <<period, quota, align, pup, cnt, [k \in KeySet |-> IF cnt[k] > 0 THEN exp[k] - pnow ELSE 0],
+          IF align THEN InPeriod(Wall) ELSE 0, LastOp>>
 PrintHist == (Emit /\ Len(hist) > 0) =>
   PrintT("TRACE " \o ToJson([period |-> period, quota |-> quota, align |-> align, ops |-> hist]))
 =============================================================================
